@@ -576,6 +576,19 @@ impl Scenario for Roundtrip {
                         ops.push(Op::Many { n: 3, prefix: "f".into() });
                         start_pos = 0;
                     }
+                    22 | 23 => {
+                        // a compressible entry beyond the limit (uncompressed size in the ZIP64 record, compressed size
+                        // not) whose header ALSO lies beyond 4 GiB: the central record then carries the first and the
+                        // third of its three possible values. Zstd level 1 / Deflate level 1 keep 4 GiB of zeros cheap.
+                        start_pos = if slot == 22 { G4 + r.below(1000) } else { G4 - 1 - r.below(30) };
+                        let (m, lvl) = if tier == Tier::Thorough { *r.pick(&[(93u16, 1), (8, 1), (12, 1)]) } else { (93u16, 1) };
+                        ops.push(Op::StartFile { name: "pad".into(), o: Opts::default() });
+                        ops.push(Op::Write { c: Content::Lit(Hex(b"0123456789".to_vec())), split: vec![] });
+                        ops.push(Op::StartFile { name: "big-compressed".into(), o: Opts { method: m, level: Some(lvl), large: true, ..Opts::default() } });
+                        ops.push(Op::Write { c: Content::Sparse { len: G4 + r.below(3), seed: r.below(1000) }, split: vec![] });
+                        ops.push(Op::StartFile { name: "after".into(), o: Opts::default() });
+                        ops.push(Op::Write { c: Content::Lit(Hex(b"tail".to_vec())), split: vec![] });
+                    }
                     17 if tier == Tier::Thorough => {
                         ops.extend(big(5 * (1 << 30), true, 0, &mut r));
                         start_pos = 0;
